@@ -36,7 +36,7 @@ engines = [
 ]
 for e in sorted({e for P in props.PROPS.values() for e in P["engines"]}):
     engines.append({"name": e, "path": "tools/engines/%s.py" % e, "serves_properties": sorted(p for p, P in props.PROPS.items() if e in P["engines"]),
-                    "kind_free_text": "correspondence: real code (harness/, hooks on) vs extracted Coq model (ocaml/%s_check.ml), extracted property checkers applied to the real outputs" % e})
+                    "kind_free_text": props.ENGINE_TEXT.get(e, "correspondence: real code (harness/, hooks on) vs extracted Coq model (ocaml/%s_check.ml), extracted property checkers applied to the real outputs" % e)})
 m = {
     "version": 1,
     "setup_cmd": "python3 tools/setup.py",
